@@ -80,7 +80,7 @@ pub fn vocab(lang: &str) -> Vec<&'static str> {
         "xc" => vec![
             "über", "u\u{308}ber", "Über", "U\u{308}ber", "café", "cafe\u{301}", "CAFE\u{301}", "\u{212b}ngstrom", "\u{c5}ngstrom", "Ärger", "A\u{308}rger", "schön", "scho\u{308}n",
             "metal", "mailbox", "yellow", "detector", "the", "of", "straße", "uber", "cafe", "ö", "o\u{308}", "möbel", "mo\u{308}bel", "naïve", "e\u{301}", "été", "e\u{301}te\u{301}",
-            "auto\u{ad}mat", "automat", "\u{ad}soft", "hy\u{ad}\u{ad}phen", "end\u{ad}",
+            "bijoux dore\u{301}s", "ijs", "mijn u\u{308}ber", "lijke\u{301}", "auto\u{ad}mat", "automat", "\u{ad}soft", "hy\u{ad}\u{ad}phen", "end\u{ad}",
             "col\u{b7}leccio", "paral\u{b7}lel", "c++11", "snake_case_name", "o'clock", "c#sharp", "l\u{b7}l",
         ],
         "xs" => vec![
